@@ -97,7 +97,8 @@ def core(x, peaks, troughs, rec):
 
 
 def check_enum(case, rec):
-    x = np.array(case['x'], dtype=float)
+    x = np.array(case['x'], dtype=float) * (2.0 ** case.get('scale_exp', 0))     # units: the definition is scale free
+    rec.label('scale:%s' % ('1' if not case.get('scale_exp') else ('tiny' if case['scale_exp'] < -20 else 'other')))
     core(x, case['peaks'], case['troughs'], rec)
 
 
@@ -156,7 +157,7 @@ def strat_raw(draw, tier):
     start = draw(st.sampled_from(['P', 'T']))
     peaks = [i for j, i in enumerate(idx) if (j % 2 == 0) == (start == 'P')]
     troughs = [i for j, i in enumerate(idx) if (j % 2 == 0) != (start == 'P')]
-    return {'x': x, 'peaks': peaks, 'troughs': troughs}
+    return {'x': x, 'peaks': peaks, 'troughs': troughs, 'scale_exp': draw(st.sampled_from([0, 0, 0, -50, -40, -30, -10, 3, 20]))}
 
 
 @st.composite
